@@ -158,6 +158,9 @@ def plan(tier, seed):
     themes = ['text']
     k = 16 if tier == 'quick' else 160
     units += [{'kind': 'lazy', 'theme': themes[i % len(themes)], 'seed': seed * 65521 + i, 'n': 60 if tier == 'quick' else 200} for i in range(k)]
+    fthemes = ['text']
+    units += [{'kind': 'faultcompile', 'theme': fthemes[i % len(fthemes)], 'seed': seed * 32749 + i, 'n': 150 if tier == 'quick' else 500}
+              for i in range(8 if tier == 'quick' else 80)]
     return units
 
 
